@@ -77,6 +77,10 @@ def check_day(o):
              'YEAR(%s)' % isot, 'MONTH(%s)' % isot, 'DAY(%s)' % isot, 'HOUR(%s)' % isot, 'MINUTE(%s)' % isot, 'SECOND(%s)' % isot,
              'WEEKDAY(%s)' % D, 'WEEKDAY(%s,1)' % D, 'WEEKDAY(%s,2)' % D, 'WEEKDAY(%s,3)' % D, 'WEEKDAY(%s,2)' % iso]
     want = [d.year, d.month, d.day] * 3 + [h, mi, s, w1, w1, wd + 1, wd, wd + 1]
+    # ISO text with a fraction of a second: the components are the ones written (nothing is rounded up into the next second, minute ... year)
+    isof = isot[:-1] + ['.750', '.5', '.999', '.900', '.250', '.001'][o % 6] + '"'
+    parts += ['SECOND(%s)' % isof, 'MINUTE(%s)' % isof, 'HOUR(%s)' % isof, 'DAY(%s)' % isof, 'YEAR(%s)' % isof]
+    want += [s, mi, h, d.day, d.year]
     # ISO text with a UTC designator: the components are the ones written (an offset is not a reason to shift the clock)
     isoz = isot[:-1] + ['Z', '+00:00', '+02:00', '-05:00', '+05:30', '-11:00', '+14:00'][o % 7] + '"'
     parts += ['YEAR(%s)' % isoz, 'MONTH(%s)' % isoz, 'DAY(%s)' % isoz, 'HOUR(%s)' % isoz, 'MINUTE(%s)' % isoz, 'SECOND(%s)' % isoz, 'WEEKDAY(%s,2)' % isoz]
@@ -155,7 +159,10 @@ def ord_s():
 @st.composite
 def date_pair(draw):
     a = draw(ord_s())
-    kind = draw(st.integers(0, 5))
+    kind = draw(st.integers(0, 6))
+    if kind == 6:       # the first day after the gap in the serials: 1 March 1900 against a nearby or a far date
+        a = rd.MAR1_ORD
+        kind = draw(st.sampled_from([0, 1]))
     if kind == 0:
         b = draw(ord_s())
     elif kind == 1:
